@@ -379,10 +379,7 @@ func (k Keeper) SetNetworkProperty(ctx sdk.Context, property types.NetworkProper
 	case types.MinProposalEnactmentBlocks:
 		properties.MinProposalEnactmentBlocks = value.Value
 	case types.EnableForeignFeePayments:
-		if value.Value > 0 {
-			properties.EnableForeignFeePayments = true
-		}
-		properties.EnableForeignFeePayments = false
+		properties.EnableForeignFeePayments = IntToBool(value.Value)
 	case types.MischanceRankDecreaseAmount:
 		properties.MischanceRankDecreaseAmount = value.Value
 	case types.MaxMischance:
